@@ -54,6 +54,11 @@ func prepareJSightSchema(
 	}
 
 	err := userTypes.Each(func(k string, v jschemaLib.Schema) error {
+		if k == "" {
+			// A TYPE directive without a name: the error will be reported for
+			// that directive, not for this schema.
+			return nil
+		}
 		return s.AddType(k, FreshUserType(k, v))
 	})
 	if err != nil {
